@@ -257,6 +257,10 @@ def _describe(ctx: Context) -> _Source | Declined:
     if isinstance(ctx, (EFloatContext, MPBFloatContext)):
         maxval = ctx.maxval().as_real()
         neg_maxval = ctx.maxval(s=True).as_real()
+        # a format whose only finite value is zero overflows on every non-zero
+        # operand; a fixed-point round clamped to a zero bound cannot say so
+        if maxval.is_zero():
+            return Declined('the format has no non-zero value')
         # an emitted context states one bound and mirrors it, and FPy's context
         # construction has no way to pass the other, so the two must agree
         if neg_maxval != RealFloat(s=True, x=maxval):
